@@ -124,6 +124,11 @@ def run(F, R):
     # its own token: a return after the pop without the re-add leaves the token free to be recycled a second time (T13)
     from .C19 import pop_readd_rule
     pop_readd_rule(F, R, 'T13')
+    # T14: a peer that ignores its credit cannot overwrite unread data: the socket receive buffer refuses what does not fit in its free
+    # space and its copies follow modular ring indexing (C17.V6)
+    if 'device::socket::connectionmanager::RingBuffer' in F.adts:
+        from .C17 import v6_ring
+        guard(R, 'T14', 'ring-buffer', lambda: v6_ring(F, RuleProxy(R, {'V6': 'T14'})))
     # T12: the token check of pop_used is what ties a device-reported id to the chain a blocking call submitted: the helper passes
     # the token of its own add, never the id the device wrote (C03.E8)
     from .C03 import e8_helper_token
